@@ -20,6 +20,8 @@ def MakeCustomaryToBase(a: Any, b: Any, c: Any, d: Any) -> UnaryConversionFunc:
     :returns:
         Returns a callable with the conversion to the base.
     """
+    # the coefficients are always floats (an int coefficient would overflow with integer numpy arrays)
+    a, b, c, d = float(a), float(b), float(c), float(d)
 
     if d == 0:
         # no x term in the denominator: do not multiply x by zero (an infinite x must stay infinite)
@@ -53,6 +55,8 @@ def MakeBaseToCustomary(a: Any, b: Any, c: Any, d: Any) -> UnaryConversionFunc:
          Returns a callable with the conversion from the base to a unit (depending on the
          coefficients).
     """
+    # the coefficients are always floats (an int coefficient would overflow with integer numpy arrays)
+    a, b, c, d = float(a), float(b), float(c), float(d)
 
     if d == 0:
         # no y term in the denominator: do not multiply y by zero (an infinite y must stay infinite)
